@@ -112,7 +112,7 @@ class Ledger:
         by folding the code on boundary witnesses. Its outcome is recorded in the evidence ("closed": the clause is
         proven for every input on this tree; "open": the code has a shape the structural rule does not recognise -
         then only the witnesses were decided) and never raises an alarm by itself."""
-        rec = {"obligations": 0, "open": []}
+        rec = {"obligations": 0, "open": [], "hard": kw.pop("hard", None)}
         prev = self._soft
         self._soft = rec
         try:
@@ -127,7 +127,8 @@ class Ledger:
 
     def ob(self, rule, file, func, key, required, found, ok, line=None,
            note=None):
-        if self._soft is not None:
+        if self._soft is not None and not (self._soft.get("hard") and self._soft["hard"](rule, key)):
+            # (clauses the witness fold cannot observe - locking, log lines - stay real obligations: `hard` predicate)
             self._soft["obligations"] += 1
             if not ok:
                 self._soft["open"].append("%s: %s (expected %s, found %s)" % (rule, _short(key, 160), _short(required, 80), _short(found, 80)))
